@@ -174,6 +174,7 @@ BREAKING = [
     ('C14', 'sc3/seq/event.py', "            msg = ['/n_free', self['node_id']]", "            msg = ['/n_free', self['node_id'], 0]", 'n_free with a stray argument'),
     ('C13', 'sc3/seq/patterns/eventpatterns.py', "                event = inevent.copy()\n                event.update(self._stream_dict_next(stream_dict))", "                event = inevent\n                event.update(self._stream_dict_next(stream_dict))", 'Pbind writes into the input event'),
     ('C13', 'sc3/seq/patterns/eventpatterns.py', "        streams = [stm.stream(p) for p in reversed(self.patterns)]", "        streams = [stm.stream(p) for p in self.patterns]", 'Pchain applies its patterns first to last'),
+    ('C14', 'sc3/seq/patterns/eventpatterns.py', "                    event['node_id'] = node_id\n                    event['mono_params'] = mono_params\n                    inevent = yield event\n        except stm.StopStream:\n            cleanup.run()", "                    event['node_id'] = node_id\n                    event['mono_params'] = mono_params\n                    inevent = yield event\n        except stm.StopStream:\n            pass", 'Pmono never releases its synth'),
 ]
 
 
